@@ -47,7 +47,8 @@ class C02(Prop):
     reach = ["suite_1301", "suite_1302", "suite_1303", "suite_1304", "negotiated_not_first_offered", "zero_len_cid_client",
              "zero_len_cid_server", "retry", "one_way_capture", "zero_rtt", "crypto_out_of_order", "crypto_multi_packet", "coalesced_3_types",
              "key_update", "key_updates_ge_2", "cid_switch", "pnlen_1", "pnlen_4", "pn_skip", "stream_no_length",
-             "multi_stream_frames", "net_dup", "net_loss", "net_reorder", "ipv6", "multi_conn", "retry_id_equals_first_protected_byte"]
+             "multi_stream_frames", "net_dup", "net_loss", "net_reorder", "ipv6", "multi_conn", "retry_id_equals_first_protected_byte",
+             "new_connection_id_of_other_length", "version_negotiation_first"]
 
     def plan(self, tier):
         p = super().plan(tier)
@@ -59,7 +60,7 @@ class C02(Prop):
         R = Rng(seed, "C02")
         used = set()
         n = R.weighted([(1, 65), (2, 25), (3, 10)])
-        cfg = {"small": tier == "quick", "zero_rtt_any_suite_pct": 25}
+        cfg = {"small": tier == "quick", "zero_rtt_any_suite_pct": 25, "vneg_pct": 6}
         if idx % 2:
             cfg["net"] = NET
         policy = R.choice(["concurrent", "staggered", "sequential"])
@@ -159,7 +160,7 @@ class C02(Prop):
                 if not f["kept"] or f["ts"] in seen_ts:
                     continue
                 seen_ts.add(f["ts"])
-                pks = [pk for pk in c["dmeta"][f["dg"]]["pk"] if pk["kind"] != "retry"]
+                pks = [pk for pk in c["dmeta"][f["dg"]]["pk"] if pk["kind"] not in ("retry", "vneg")]
                 got = byts.get(f["ts"], [])
                 if len(got) != len(pks):
                     continue          # undecryptable duplicates etc.; the primary oracle judges the outcome
@@ -191,6 +192,10 @@ class C02(Prop):
                 out.count("reach:zero_len_cid_client")
             if q["scid_s_len"] == 0:
                 out.count("reach:zero_len_cid_server")
+            if q.get("ncid_len") and (q["ncid"]["s"] or q["ncid"]["c"]):
+                out.count("reach:new_connection_id_of_other_length")
+            if q.get("vneg_prelude"):
+                out.count("reach:version_negotiation_first")
             if q["retry"]:
                 out.count("reach:retry")
             if conn.get("retry_id_aimed"):
